@@ -8,3 +8,17 @@ claim("C16", "property-based testing: differential vs scipy.stats log-densities 
       "to 1e-9 and with the reject-outside-support rule, through PIDInterface.check_prior and the posterior of "
       "InferenceSetup.cost_function. 24k cases quick / 400k thorough; no absence claim beyond the generated cases.",
       _TB, "DESIGN.md section 4 C16")
+
+claim("C01", "property-based testing: exhaustive integer grid + Hypothesis search, differential vs closed-form rate laws",
+      "Every propensity type x reactant multiset of order 0..4 x integer states x volumes is enumerated, and real-valued "
+      "states / parameters / volumes are sampled (12k quick / 80k thorough multi-reaction models); all four evaluation "
+      "modes through the bare propensity object, the plain and the safe interface are compared with closed forms written "
+      "from the documentation (1e-10 relative).",
+      _TB + "; the guarded probes py_verif_* expose the cdef stochastic rate methods unchanged", "DESIGN.md section 4 C01")
+
+claim("C20", "property-based testing: generated operation histories against a dictionary model (model-based, Hypothesis)",
+      "Operation sequences add / read-and-advance / copy / partition (<= 40 quick, <= 120 thorough; 20k / 300k "
+      "histories) are executed on ArrayDelayQueue and on a dictionary model with the nearest-slot and clamping rule; "
+      "next-queue-time, delivered counts, delivery order, exactly-once accounting, copy equality/independence and "
+      "partition sums are checked after every step and by draining every queue at the end.",
+      _TB, "DESIGN.md section 4 C20")
